@@ -21,6 +21,11 @@
 (*                   truth value of the position instead of `is None`: a body that starts at offset 0       *)
 (*                   is re-recorded at the redirected call (now at end of file), and the SECOND redirect     *)
 (*                   in a row re-sends it empty                                                            *)
+(*             "ChunkSizeCountsItems"  (recorded finding) with chunked framing the chunk-size line of a buffer      *)
+(*                   object whose items are wider than a byte (or that has several dimensions) says len(chunk),    *)
+(*                   i.e. ITEMS, while all its bytes follow: the chunked body is malformed                          *)
+(*             "LengthCountsItems"  (never in the code; TLC must refute it) Content-Length of such a buffer is       *)
+(*                   len() instead of nbytes: the framed payload is a prefix, the other bytes trail on the connection *)
 (*             "ShortReadIsEOF"  (never in the code; TLC must refute it) chunk_readable stops after a block       *)
 (*                   shorter than the blocksize instead of reading until read() returns an empty block: the         *)
 (*                   framing stays valid, the body of a short-reading stream is silently truncated - and every        *)
@@ -41,13 +46,15 @@ EXTENDS Wire
 \* the trace monitor asks which D describes a recorded run.
 Z0 == "ZeroPosTreatedAsUnset"
 SR == "ShortReadIsEOF"
-Defects == {"D3", Z0, SR}
+LCI == "LengthCountsItems"
+CSI == "ChunkSizeCountsItems"
+Defects == {"D3", CSI, Z0, SR, LCI}
 
 -----------------------------------------------------------------------------
 (* Body kinds                                                                   *)
 
 Kinds == {"none", "bytes", "str", "buffer", "file", "textfile", "notell", "badseek", "badtell",
-          "list", "strlist", "gen", "shortfile", "shorttextfile", "shortpipe", "shorttextpipe"}
+          "list", "strlist", "gen", "widebuffer", "shortfile", "shorttextfile", "shortpipe", "shorttextpipe"}
 \* file-like bodies (hasattr(body, "read")) come in two read disciplines:
 \*   reads in full blocks   read(n) returns n units until the data runs out (BytesIO, regular files)
 \*   may return short blocks  read(n) returns a NON-EMPTY block shorter than n while more data follows (raw pipes, unbuffered
@@ -60,7 +67,7 @@ HasTell == {"file", "textfile", "badseek", "badtell", "shortfile", "shorttextfil
 HasSeek == HasTell
 OneShot == {"notell", "gen", "shortpipe", "shorttextpipe"}      \* reading consumes it and nothing can bring it back
 Rewindable == {"file", "textfile", "shortfile", "shorttextfile"}  \* tell and seek work
-Replayable == {"bytes", "str", "buffer", "list", "strlist"}
+Replayable == {"bytes", "str", "buffer", "widebuffer", "list", "strlist"}
 
 \* scenario:  [kind, content : Seq(Symbol), start : Nat,     the underlying data; the body is content[start+1..]
 \*             method : Seq(Symbol), chunked : BOOLEAN, caller : "none"|"cl"|"te",
@@ -155,13 +162,13 @@ PosNone == [k |-> "None", v |-> 0]
 PosFailed == [k |-> "FAILEDTELL", v |-> 0]
 PosAt(n) == [k |-> "int", v |-> n]
 
-ReqOf(sc, st, chunks) ==
+ReqOf(D, sc, st, chunks) ==
     [level |-> "pool", method |-> st.method, slash |-> TRUE, url |-> st.target,
      hdrs |-> CASE sc.caller = "none" -> <<>>
                 [] sc.caller = "cl" -> << [n |-> CLDisp, v |-> DecDigits(Len(Want(sc))), skip |-> FALSE] >>
                 [] sc.caller = "te" -> << [n |-> TEDisp, v |-> Chunked, skip |-> FALSE] >>,
      body |-> [kind |-> IF st.hasBody THEN sc.kind ELSE "none", chunks |-> chunks],
-     chunked |-> sc.chunked]
+     chunked |-> sc.chunked, dev |-> D \cap {LCI, CSI}]
 
 InitState(sc) == [pc |-> IF sc.client = "mgr" THEN "menter" ELSE "enter", kwPos |-> PosNone, mgrPos |-> PosNone, method |-> sc.method, target |-> <<"a">>, hasBody |-> sc.kind # "none",
                   cursor |-> sc.start, used |-> 0, bodyPos |-> PosNone, left |-> sc.hist,
@@ -220,12 +227,12 @@ ReadBlocks(D, sc, cursor) ==
 Yield(D, sc, st) ==
     LET k == IF st.hasBody THEN sc.kind ELSE "none" IN
     CASE k = "none" -> <<>>
-      [] k \in {"bytes", "str", "buffer"} -> <<BodyData(sc)>>
+      [] k \in {"bytes", "str", "buffer", "widebuffer"} -> <<BodyData(sc)>>
       [] k \in FileLike -> ReadBlocks(D, sc, st.cursor)
       [] k \in {"list", "strlist"} -> ListChunks(BodyData(sc))
       [] k = "gen" -> SubSeq(ListChunks(BodyData(sc)), st.used + 1, 4)
 
-NowReq(D, sc, st) == ReqOf(sc, st, Yield(D, sc, st))
+NowReq(D, sc, st) == ReqOf(D, sc, st, Yield(D, sc, st))
 WireOf(D, sc, st) == Serialize("pool", NowReq(D, sc, st))
 HeadOf(D, sc, st) == SerializeHead("pool", NowReq(D, sc, st))
 
@@ -316,6 +323,9 @@ InClassD3(sc, j) == sc.kind \in OneShot /\ HasResendBefore(sc, j)
 \* two manager-level redirects before the attempt
 \* the only place where "a short block means end of data" can bite: a short-reading stream with more data after its first block
 InClassSR(sc) == sc.kind \in ShortReaders /\ Len(BodyData(sc)) > ShortRead(sc)
+\* the wide-buffer classes: Content-Length framing (nothing asked for chunking) / chunked framing, of a non-empty wide buffer
+InClassLCI(sc) == sc.kind = "widebuffer" /\ BodyData(sc) # <<>> /\ ~sc.chunked /\ sc.caller = "none"
+InClassCSI(sc) == sc.kind = "widebuffer" /\ BodyData(sc) # <<>> /\ sc.chunked /\ sc.caller = "none"
 InClassZ0(sc, j) == /\ sc.client = "mgr" /\ sc.kind \in HasTell /\ sc.start = 0
                     /\ Cardinality({i \in 1..(j - 1) : i <= Len(sc.hist) /\ sc.hist[i] \in {"307", "308"}}) >= 2
 =============================================================================
